@@ -29,7 +29,7 @@ Record case := mk {
   panicked : bool             (* the real code panicked or did not stop *)
 }.
 
-Definition FUEL : nat := N.to_nat 20000.
+Definition FUEL : nat := Eval vm_compute in N.to_nat 10000.
 
 Definition agrees (r : list Z * option Z) (c : case) : bool :=
   lz_eqb (fst r) (obs c) && opt_eqb Z.eqb (snd r) (err c) && negb (panicked c).
